@@ -1,6 +1,9 @@
 (* Extraction of the executable models. ExtrOcamlBasic only: bool, option, unit, list, prod,
    sumbool, sumor map to OCaml's; N / positive / nat / Z stay Coq inductives. *)
 Require Import ExtrOcamlBasic.
-Require Import Base.Bytes Core.VehicleDefs Core.Vehicle.
+Require Import Base.Bytes Core.VehicleDefs Core.Vehicle Core.GameVersion.
 Extraction Language OCaml.
-Extraction "model.ml" vehicle_read vehicle_write vehicle_display spec_read.
+Definition x_gv := GameVersion.parse.
+Definition x_vcmp := vcmp.
+Definition x_veq := veq.
+Extraction "model.ml" vehicle_read vehicle_write vehicle_display spec_read x_gv x_vcmp x_veq.
